@@ -402,6 +402,9 @@ func runC04(o Opts) error {
 		}
 	}
 	s.Extra["listener_datagrams_with_recover"] = delivered
+	if s.ReplayWants("listen-shutdown") {
+		listenStopChild(s)
+	}
 	return s.Close()
 }
 
@@ -428,4 +431,42 @@ func badPatterns(text string, width int) [][]byte {
 		ff[i] = 0xff
 	}
 	return [][]byte{ff}
+}
+
+// one datagram through the library's event handler (recording driver): the status handed to OnEvent, or nil
+type statusListener struct {
+	connected chan struct{}
+	got       chan *types.Status
+}
+
+func (l *statusListener) OnConnected()            { close(l.connected) }
+func (l *statusListener) OnEvent(s *types.Status) { l.got <- s }
+func (l *statusListener) OnError(err error) bool  { l.got <- nil; return true }
+
+func listenStatus(d []byte) *types.Status {
+	cl := newClient(Cfg{})
+	l := &statusListener{connected: make(chan struct{}), got: make(chan *types.Status, 2)}
+	q := make(chan os.Signal, 1)
+	done := make(chan error, 1)
+	go func() { done <- cl.u.Listen(l, q) }()
+	select {
+	case <-l.connected:
+	case <-time.After(2 * time.Second):
+		return nil
+	}
+	var st *types.Status
+	func() {
+		defer func() { recover() }()
+		cl.f.listenCB(append([]byte{}, d...))
+	}()
+	select {
+	case st = <-l.got:
+	case <-time.After(2 * time.Second):
+	}
+	q <- syscall.SIGINT
+	select {
+	case <-done:
+	case <-time.After(2 * time.Second):
+	}
+	return st
 }
